@@ -439,15 +439,18 @@ def _check(prop, tier, seed, cells, scratch, t0, props_meta, extra=None):
     mem_used = [0]
 
     def job(c):
+        # `mem` is an address-space cap, not a reservation: passing queries were measured at 1-7 GB resident,
+        # so a third of the cap is booked against the machine's memory
+        w = max(2, c.mem // 3)
         with mem_lock:
-            while mem_used[0] + c.mem > TOTAL_MEM_GB and mem_used[0] > 0:
+            while mem_used[0] + w > TOTAL_MEM_GB and mem_used[0] > 0:
                 mem_lock.wait()
-            mem_used[0] += c.mem
+            mem_used[0] += w
         try:
             r = run_cell(scratch, c)
         finally:
             with mem_lock:
-                mem_used[0] -= c.mem
+                mem_used[0] -= w
                 mem_lock.notify_all()
         print(f"[{prop}] {r['cell']:<44} {r['verdict']:<12} {r['wall_s']:>7.1f}s  checks={r['checks_total']} "
               f"covers={len(r['covers_sat'])}/{len(r['covers_sat']) + len(r['covers_unsat'])} {r['reason']}", flush=True)
@@ -532,6 +535,8 @@ def _check(prop, tier, seed, cells, scratch, t0, props_meta, extra=None):
 # --------------------------------------------------------------------------
 
 def write_evidence(prop, tier, seed, results, wall, violations, known_hits, props_meta=None, note=""):
+    if os.environ.get("VERIF_NO_EVIDENCE"):   # developer runs against mutated copies must not overwrite evidence
+        return
     ev_dir = VERIF / "evidence"
     ev_dir.mkdir(exist_ok=True)
     meta = (props_meta or {}).get(prop, {})
